@@ -129,11 +129,12 @@ class Labels:
     field path of the place when `extend` is given (it receives (label, place) and returns the
     new label)."""
 
-    def __init__(self, facts, root_fn, seeds, extend=None, through_calls=True):
+    def __init__(self, facts, root_fn, seeds, extend=None, through_calls=True, through_mut=False):
         self.facts = facts
         self.fns = {f.path: f for f in facts.with_closures(root_fn)}
         self.extend = extend
         self.through_calls = through_calls
+        self.through_mut = through_mut   # a call handing `&mut x` to a callee stores the labels of its other arguments in x
         self.lab = defaultdict(set)  # (fn path, local) -> labels
         self.upv = defaultdict(set)  # (closure path, upvar index) -> labels
         for (p, l), ls in seeds.items():
@@ -218,11 +219,27 @@ class Labels:
                             for p in range(2, cf.argc + 1):
                                 if others and self._add((cl, p), others):
                                     changed = True
+                            # what the closure returns may be (part of) what the call yields
+                            rl = self.lab.get((cl, 0))
+                            if rl and self.through_calls and self._add((fn.path, t["dest"]["l"]), set(rl)):
+                                changed = True
                         # closure called directly through Fn*/call*: args tuple -> params
                         name = callee_def(t) or ""
                         if self.through_calls and allv:
                             if self._add((fn.path, t["dest"]["l"]), allv):
                                 changed = True
-                        # a call may also write through &mut arguments: not modelled (labels only flow forward
-                        # through results)
+                        if self.through_mut and allv:
+                            for i, a in enumerate(t["args"]):
+                                pl = op_place(a)
+                                if pl is None or pl["p"]:
+                                    continue
+                                for d in fn.defs().get(pl["l"], []):
+                                    if d[0] == "stmt" and "ref" in d[3]["rv"] and d[3]["rv"].get("mut"):
+                                        tgt = d[3]["rv"]["ref"]["l"]
+                                        others = set()
+                                        for j, ls in enumerate(arg_labels):
+                                            if j != i:
+                                                others |= ls
+                                        if others and self._add((fn.path, tgt), others):
+                                            changed = True
         return self
